@@ -365,7 +365,7 @@ def _client():
             evs = []
             for i, t in enumerate(arr):
                 e = cl.send_request(payload=i)
-                e.time = type(e.time)(t)
+                e.time = type(e.time)(z.t0_ns + t)
                 evs.append(e)
             return evs
         z.after_init(first)
@@ -403,7 +403,7 @@ def _pooled():
                 evs.append(pool.warmup())
             for i, t in enumerate(arr):
                 e = cl.send_request(payload=i)
-                e.time = type(e.time)(t)
+                e.time = type(e.time)(z.t0_ns + t)
                 evs.append(e)
             return evs
         z.after_init(first)
@@ -796,7 +796,7 @@ def _appt():
 
     def build(z, c):
         sink = z.sink()
-        a = z.add(AppointmentScheduler("appt", target=sink, appointments=[check_num(x, 0, 1e4) for x in c["appts"]],
+        a = z.add(AppointmentScheduler("appt", target=sink, appointments=[z.abs_s(check_num(x, 0, 1e4)) for x in c["appts"]],
                                        no_show_rate=c["noshow"]))
         z.after_init(lambda: a.start_events())
         z.horizon_ns = ns(max(c["appts"]) + 1)
@@ -872,7 +872,7 @@ def _gate():
 
     def build(z, c):
         sink = z.sink()
-        g = z.add(GateController("gate", downstream=sink, schedule=[(check_num(a), check_num(b)) for a, b in c["sched"]],
+        g = z.add(GateController("gate", downstream=sink, schedule=[(z.abs_s(check_num(a)), z.abs_s(check_num(b))) for a, b in c["sched"]],
                                  initially_open=bool(c["open0"]), queue_capacity=int(c["qcap"])))
         z.after_init(lambda: g.start_events())
         feed(z, c, g)
@@ -1020,10 +1020,8 @@ def _shifted():
 
     def build(z, c):
         sink = z.sink()
-        sched = ShiftSchedule([Shift(check_num(a), check_num(b), int(k)) for a, b, k in c["shifts"]],
+        sched = ShiftSchedule([Shift(z.abs_s(check_num(a)), z.abs_s(check_num(b)), int(k)) for a, b, k in c["shifts"]],
                               default_capacity=int(c["dcap"]))
-        if c.get("places") == 0:
-            z.probe("avoid.ShiftedServer.whole_second_boundaries")   # avoidance class of the recorded _ShiftChange spin
         s = z.add(ShiftedServer("shifted", schedule=sched, service_time=check_num(c["st"]), downstream=sink,
                                 policy=policy_of(c["policy"]) if c.get("policy") else None))
         feed(z, c, s)
